@@ -6,9 +6,10 @@
   `Uniform::new(a, b)` is *any* `d` with `a ≤ d < b`, of `new_inclusive` any `d` with `a ≤ d ≤ b`, of `rng.gen::<T>()` any
   `g` with `0 ≤ g < 1`.  The theorems quantify over all such draws ("for every admissible draw").
 
-  Not formalised: the measure-theoretic pushforward (that a uniform draw pushed through the inverse CDF *is* the volume
-  measure).  What is proved is its mathematical content: the volume/area fractions are `v³`, `s²` and the two-piece bicone
-  cubic (interval integrals), and the samplers are exactly the inverses of these CDFs.
+  The measure-theoretic pushforward (uniform draws pushed through the sampler ARE the normalised volume measure of the solid, full 3-D
+  statement) is proved in `C19_Pushforward.lean` / `C19_PushforwardStd.lean`.  This file proves containment and the 1-D content: the
+  volume/area fractions are `v³`, `s²` and the two-piece bicone cubic (interval integrals), and the samplers are exactly the inverses
+  of these CDFs.
 -/
 import PaletteProofs.Real
 import PaletteModel.Sampling
@@ -412,9 +413,10 @@ example : Admissible (uniformEnds .Hsv [(10:ℝ), 0, 0] [20, 1, 1]) [15, 0.5, 0.
 /-! ## [C] volume uniformity, as inverse-CDF statements
 
   The *pushforward* statement ("a uniform draw pushed through the sampler is distributed as the normalised volume measure") is
-  NOT formalised.  Its content is: (i) the CDF of the volume measure along each coordinate is the function below, (ii) the
-  sampler is exactly the inverse of that CDF, (iii) `new`/`new_inclusive` hand rand exactly the CDF values of the two ends, so a
-  uniform draw between them is the volume measure conditioned on the range.  (i)–(iii) are proved. -/
+  proved in `C19_Pushforward.lean` (between two colours) and `C19_PushforwardStd.lean` (`Standard`).  Its 1-D content is: (i) the CDF of
+  the volume measure along each coordinate is the function below, (ii) the sampler is exactly the inverse of that CDF,
+  (iii) `new`/`new_inclusive` hand rand exactly the CDF values of the two ends, so a uniform draw between them is the volume measure
+  conditioned on the range.  (i)–(iii) are proved here. -/
 
 theorem integral_sq (c a b : ℝ) : ∫ t in a..b, c * t ^ 2 = c * ((b ^ 3 - a ^ 3) / 3) := by
   rw [intervalIntegral.integral_const_mul, integral_pow]; norm_num
